@@ -62,6 +62,9 @@ def run_ring_property(pid, props_file, gen, rule, extra_trusted=(), assumptions=
     proof_failure_violation(run, bool(run.violations))
     run.cov["distinct_nontrivial"] += len(nontrivial)
     run.cov["traces_validated_against_impl"] = n_validated
+    import ringvalidate
+    if ringvalidate.DRIVER_FAILURES:
+        run.notes.append(f"trace validation skipped for {len(ringvalidate.DRIVER_FAILURES)} traces the OCaml driver could not evaluate (stack depth; trace lengths {sorted(ringvalidate.DRIVER_FAILURES)[-3:]} events)")
     run.cov["rule"] = rule
     dist["monitor_findings"] = {f"{k[0]}|{k[1]}": v for k, v in counts.items()}
     dist["outcomes"] = dict(collections.Counter(t.outcome for t in traces))
